@@ -108,8 +108,11 @@ Definition apply_label (s : gstate) (l : label) : option gstate :=
       match find_camp (cur n) c (camps s) with
       | None => None
       | Some cl =>
+          (* the last conjunct follows from the invariants (one vote per term in the history of votes
+             cast); checking it makes a second vote fail at the grant itself *)
           if negb (is_learner j n) && (opt_nat_eqb (vote n) None || opt_nat_eqb (vote n) (Some c))
              && uptodate cl (log n)
+             && forallb (fun g => let '(j', t, c') := g in negb ((j' =? j) && (t =? cur n)) || (c' =? c)) (grants s)
           then Some (mkG (upd (nodes s) j (mkN (cur n) (Some c) (rl n) (log n) (snapi n) (commit n) (conf n)))
                          (camps s) ((j, cur n, c) :: grants s) (leaders s) (tlogs s) (acks s) (gcommit s)
                          (quorums s) (app s))
@@ -336,3 +339,4 @@ Definition snapshot_ok (s : gstate) (t idx idxt : nat) : bool :=
   | 0 => true
   | _ => (idx <=? length (gcommit s)) && opt_nat_eqb (term_at (gcommit s) idx) (Some idxt)
   end.
+Definition gcommit_of (s : gstate) : list entry := gcommit s.
